@@ -329,7 +329,7 @@ func runC04(pl *plan.Plan, out *plan.Outcome) {
 	})
 	res := env.Run()
 	if res != "done" && out.Trouble == "" {
-		out.Trouble = "run ended: " + res
+		env.runEnded(res, out)
 	}
 	out.Add("c04.delivered", int64(len(got)))
 	out.Add("probe.data_after_replacement_or_invalidation", int64(interesting))
@@ -549,7 +549,7 @@ func runC04Concurrent(pl *plan.Plan, out *plan.Outcome) {
 		cp.CloseMsgChan()
 	})
 	if res := env.Run(); res != "done" && out.Trouble == "" {
-		out.Trouble = "run ended: " + res
+		env.runEnded(res, out)
 	}
 	out.Add("probe.data_decode_overlapping_template_change", int64(mixes))
 	out.Nontrivial = mixes > 0
@@ -692,7 +692,7 @@ func runC04Orphan(pl *plan.Plan, out *plan.Outcome, env *Env, cp *collector.Coll
 		cp.CloseMsgChan()
 	})
 	if res := env.Run(); res != "done" && out.Trouble == "" {
-		out.Trouble = "run ended: " + res
+		env.runEnded(res, out)
 	}
 	out.Add("probe.template_store_overlapping_withdrawal", int64(overlaps))
 	out.Nontrivial = overlaps > 0
